@@ -614,6 +614,8 @@ func checkCfg(c cfgCase) *rp.Fail {
 func props() []rp.Prop {
 	return []rp.Prop{
 		rp.P[api.Case]{Name: "args", Checks: ev.Pick(90000, 16000000) / ev.Shards(), Gen: genCase, Sweep: sweep, Check: check},
+		rp.P[bulkCase]{Name: "bulk-upload", Checks: ev.Pick(6000, 600000) / ev.Shards(), Gen: genBulk, Check: checkBulk},
+		rp.P[raceCase]{Name: "concurrent-validation", Checks: ev.Pick(60, 4000) / ev.Shards(), Gen: genConcurrent, Check: checkConcurrent},
 		rp.P[cfgCase]{Name: "args-configured", Checks: ev.Pick(60000, 8000000) / ev.Shards(), Gen: genCfgCase, Check: checkCfg},
 	}
 }
